@@ -300,7 +300,23 @@ class Wide100(_TruncHash):
     SIZE = 100
 
 
-HASHES = {
+class _HashTable(dict):
+    """name -> hashlib-like constructor; "trunc<N>" is made on demand for every N >= 1"""
+
+    def __missing__(self, name):
+        if name.startswith("trunc") and name[5:].isdigit() and int(name[5:]) >= 1:
+            cls = type("Trunc%s" % name[5:], (_TruncHash,), {"SIZE": int(name[5:])})
+            self[name] = cls
+            return cls
+        raise KeyError(name)
+
+
+def exact_hash_name(n, minimum=1):
+    """name of a hash whose output is exactly as long as the order n in octets"""
+    return "trunc%d" % max(minimum, (n.bit_length() + 7) // 8)
+
+
+HASHES = _HashTable({
     "md5": hashlib.md5,
     "sha1": hashlib.sha1,
     "sha224": hashlib.sha224,
@@ -312,7 +328,7 @@ HASHES = {
     "short4": Short4,
     "short7": Short7,
     "wide100": Wide100,
-}
+})
 HASH_NAMES = list(HASHES)
 
 
